@@ -365,6 +365,9 @@ pub fn productions() -> Vec<Prod> {
         X "m_fn_hash_end" "fn(‹X›, #a )";
         X "m_field_attach" "arrow.r_‹X›";
         X "m_hash_let"   "#let v = 1; ‹X›";
+        X "m_hash_sub"   "#a _ ‹X›";
+        X "m_hash_sup"   "#a ^ ‹X›";
+        X "m_hash_subsup" "#a.b _ ‹X› ^ ‹X›";
         X "m_sub"        "x_‹X›";
         X "m_sup"        "x^‹X›";
         X "m_subsup"     "x_‹X›^‹X›";
